@@ -356,7 +356,7 @@ func runC11(x *core.Ctx) {
 			// strings, integer extremes, every list shape)
 			s.Deviations(base, all, 1, func(slot, val int) bool {
 				sl := s.Slots[slot]
-				return (sl.Big != nil && sl.Big(val)) || (sl.N > 64 && val > 8 && val != sl.Primary)
+				return (sl.Big != nil && sl.Big(val)) || (sl.N >= 256 && val > 8 && val != sl.Primary)
 			}, func(v gen.Vec, nd int) bool { targets = append(targets, append(gen.Vec{}, v...)); return true })
 		}
 		for _, v := range targets {
